@@ -773,10 +773,15 @@ func (g *c14Gen) genChain(h *c14History) {
 		}
 		// two auth events answered with the same third event whose own auth event is unavailable
 		if len(e.auth) >= 2 {
+			taken := 0
 			for _, o := range h.room.evs {
-				if len(o.auth) == 0 || o == e.auth[0] || o == e.auth[1] || c.Rng.Intn(3) != 0 {
+				if len(o.auth) == 0 || o == e.auth[0] || o == e.auth[1] || o == e || taken >= 2 {
 					continue
 				}
+				if last := o.auth[len(o.auth)-1]; last == e.auth[0] || last == e.auth[1] {
+					continue
+				}
+				taken++
 				other = o
 				g.run(mk(e, "", map[*c14Ev]string{e.auth[0]: "diff_once", e.auth[1]: "diff_once", o.auth[len(o.auth)-1]: "nothing"}, "orig"),
 					fmt.Sprintf("chain v%s %s: two answers are %s", ver, e.name, o.name))
